@@ -14,9 +14,11 @@ import (
 	"net/http"
 	"net/http/httptest"
 	"os"
+	"slices"
 	"sort"
 	"strings"
 	"sync"
+	"sync/atomic"
 	"testing"
 	"time"
 
@@ -105,12 +107,15 @@ func (h *h3Stub) RoundTrip(req *http.Request) (*http.Response, error) {
 	return &http.Response{StatusCode: 200, Body: io.NopCloser(strings.NewReader("h3")), Header: http.Header{}, Request: req}, nil
 }
 
+var wireOrderToggle atomic.Int64
+
 func replayTrCase(env *trEnv, c *trCase) (diff string) {
 	defer func() {
 		if p := recover(); p != nil {
 			diff = fmt.Sprint("panic: ", p)
 		}
 	}()
+	reverseWire := wireOrderToggle.Add(1)%2 == 0
 	// DoH zone: HTTPS records of each host at the host name and at every prefixed name of it; A records for every host
 	srv := newDoHServer(func(id int, name string, qtype int) ([]byte, int) {
 		base := name
@@ -130,6 +135,9 @@ func replayTrCase(env *trEnv, c *trCase) (diff string) {
 				if r.Prio != 0 {
 					order = append(order, i)
 				}
+			}
+			if reverseWire { // the order of an RRset on the wire is arbitrary: priorities decide, not positions
+				slices.Reverse(order)
 			}
 			for i, r := range c.Recs[h] {
 				if r.Prio == 0 {
